@@ -24,7 +24,9 @@ From BSpl.gen Require Import PathGen_eval.
 (* Spline::operator()(x) for splines of order 1 (windows: whole grid, [g1,g3], one interval, one grid
    point, empty) and order 2 (whole grid, [g1,g3], one interval) on a grid of four symbolic points,
    x in each of the nine position classes (left of the grid, at each grid point, strictly inside each
-   interval, right of the grid); front() and back() on the five windows (INVALID_ACCESS on the empty
+   interval, right of the grid); the same call on an object with a history (an order-2 spline evaluated
+   in its last interval, then assigned an order-1 spline on the shorter window [g0,g2], then evaluated at
+   g0, inside the first interval and at the end g2 of the new support); front() and back() on the five windows (INVALID_ACCESS on the empty
    one) - equals spl_eval / spl_front / spl_back.  At an interior grid point of the support the code
    evaluates the piece to the LEFT (lower_bound), at the first point of the support the first piece;
    the model makes the same choice (C02 itself admits either adjacent piece). *)
